@@ -305,10 +305,10 @@ def main(argv):
     known_lines = []
     notes = []
 
-    def add_violation(kind, detail, case=None, found=True):
+    def add_violation(kind, detail, case=None, found=True, case_seed=None):
         rp = os.path.join(REPLAYS, "%s_seed%d_%s_%d.json" % (prop, seed, tier, len(violations)))
-        body = {"property": prop, "seed": seed, "tier": tier, "n": n_cases, "kind": kind, "detail": detail,
-                "how_to_replay": "./check %s --replay %s" % (prop, rp)}
+        body = {"property": prop, "seed": seed if case_seed is None else case_seed, "tier": tier, "n": n_cases,
+                "kind": kind, "detail": detail, "how_to_replay": "./check %s --replay %s" % (prop, rp)}
         if case is not None:
             body["case"] = case[0]
             body["case_term"] = case[1]
@@ -368,41 +368,65 @@ def main(argv):
     meta_all, results_all, eval_errors = [], [], []
     if not ok_model:
         add_violation("model-build", "the executable model no longer compiles: " + out_model[-1500:], found=False)
+    def run_pass(profile, pass_seed, wd):
+        """one generation + evaluation pass; returns its meta (or None)"""
+        os.makedirs(wd, exist_ok=True)
+        try:
+            rc, outg = run([harness_bin(profile), "gen", prop, "--seed", str(pass_seed), "--n", str(n_cases),
+                            "--tier", tier, "--out", wd], cwd=ROOT, timeout=cfg.get("gen_timeout", 1800))
+        except subprocess.TimeoutExpired:
+            rc, outg = 124, "harness generator timed out"
+        if rc == 42:
+            add_violation("hang", "the implementation stopped making progress (%s build): %s" % (profile, outg[-3000:]),
+                          case_seed=pass_seed)
+            return None
+        if rc != 0:
+            add_violation("harness-run", "harness run failed (%s, rc=%s): %s" % (profile, rc, outg[-3000:]), found=False,
+                          case_seed=pass_seed)
+            return None
+        meta = json.load(open(os.path.join(wd, "meta.json")))
+        meta["profile"] = profile
+        meta["seed"] = pass_seed
+        meta_all.append(meta)
+        if not ok_model:
+            return meta
+        res, errs = eval_cases(wd)
+        for path, out in errs:
+            eval_errors.append(path)
+            add_violation("model-eval", "Coq could not evaluate %s: %s" % (path, (out or "")[-1500:]), found=False,
+                          case_seed=pass_seed)
+        results_all.append((profile, wd, res, pass_seed))
+        return meta
+
+    def unmet_gates():
+        dist = {}
+        for m in meta_all:
+            for k, v in m.get("distribution", {}).items():
+                dist[k] = dist.get(k, 0) + v
+        return [g for g in cfg.get("gates", []) if dist.get(g, 0) == 0]
+
+    built = []
     for profile in profiles:
         okb, outb = cargo_build(profile)
         if not okb:
             add_violation("harness-build", "harness does not build against /repo (%s): %s" % (profile, outb[-3000:]), found=False)
             continue
-        wd = os.path.join(WORK, prop, profile)
-        os.makedirs(wd, exist_ok=True)
-        try:
-            rc, outg = run([harness_bin(profile), "gen", prop, "--seed", str(seed), "--n", str(n_cases),
-                            "--tier", tier, "--out", wd], cwd=ROOT, timeout=cfg.get("gen_timeout", 1800))
-        except subprocess.TimeoutExpired:
-            rc, outg = 124, "harness generator timed out"
-        if rc == 42:
-            add_violation("hang", "the implementation stopped making progress (%s build): %s" % (profile, outg[-3000:]))
-            continue
-        if rc != 0:
-            add_violation("harness-run", "harness run failed (%s, rc=%s): %s" % (profile, rc, outg[-3000:]), found=False)
-            continue
-        meta = json.load(open(os.path.join(wd, "meta.json")))
-        meta["profile"] = profile
-        meta_all.append(meta)
-        if not ok_model:
-            continue
-        res, errs = eval_cases(wd)
-        for path, out in errs:
-            eval_errors.append(path)
-            add_violation("model-eval", "Coq could not evaluate %s: %s" % (path, (out or "")[-1500:]), found=False)
-        results_all.append((profile, wd, res))
+        built.append(profile)
+        run_pass(profile, seed, os.path.join(WORK, prop, profile))
+    # input classes that this seed did not reach are looked for with further seeds derived from it (a class
+    # that the code can still reach is found with overwhelming probability; one that is gone stays unmet)
+    extra = 0
+    while built and only_case is None and not replay and meta_all and unmet_gates() and extra < 3:
+        extra += 1
+        notes.append("classes %s not reached with seed %d: extra pass %d" % (unmet_gates(), seed, extra))
+        run_pass(built[0], seed + 1000003 * extra, os.path.join(WORK, prop, "%s-extra%d" % (built[0], extra)))
 
     # 4. verdict on cases
     known = [k for k in load_known() if k["property"] == prop and k["status"] == "known"]
     known_by_code = {k["code"]: k for k in known}
     known_hit = {}
     mismatch_cases, spec_cases, gen_errors = [], [], []
-    for profile, wd, res in results_all:
+    for profile, wd, res, pass_seed in results_all:
         by_case = {}
         for cid, code in res:
             if only_case is not None and cid != only_case:
@@ -415,26 +439,26 @@ def main(argv):
                         known_hit.setdefault(c, (profile, cid))
                 continue
             if 2 in codes:
-                spec_cases.append((profile, wd, cid))
+                spec_cases.append((profile, wd, cid, pass_seed))
             elif 1 in codes:
-                mismatch_cases.append((profile, wd, cid))
+                mismatch_cases.append((profile, wd, cid, pass_seed))
             elif 3 in codes:
-                gen_errors.append((profile, wd, cid))
+                gen_errors.append((profile, wd, cid, pass_seed))
             else:
-                spec_cases.append((profile, wd, cid))   # unknown / unlisted code = unlisted violation
-    for profile, wd, cid in spec_cases[:5]:
+                spec_cases.append((profile, wd, cid, pass_seed))   # unknown / unlisted code = unlisted violation
+    for profile, wd, cid, pass_seed in spec_cases[:5]:
         add_violation("spec-oracle", "the implementation's observation violates the specification (%s build)" % profile,
-                      case=(cid, case_text(wd, cid)))
+                      case=(cid, case_text(wd, cid)), case_seed=pass_seed)
     if not spec_cases:
-        for profile, wd, cid in mismatch_cases[:5]:
+        for profile, wd, cid, pass_seed in mismatch_cases[:5]:
             add_violation("correspondence", "model and implementation differ (%s build) and the specification oracle "
                           "accepts every observation explored; correspondence relation %s.check1 no longer holds"
-                          % (profile, cfg["check_module"]), case=(cid, case_text(wd, cid)), found=False)
+                          % (profile, cfg["check_module"]), case=(cid, case_text(wd, cid)), found=False, case_seed=pass_seed)
         if broken_obligation and not mismatch_cases:
             add_violation("proof", broken_obligation + "\n" + (out_proofs or "")[-2000:], found=False)
-    for profile, wd, cid in gen_errors[:3]:
+    for profile, wd, cid, pass_seed in gen_errors[:3]:
         add_violation("generator", "generated case violates the checker's precondition (harness defect)",
-                      case=(cid, case_text(wd, cid)), found=False)
+                      case=(cid, case_text(wd, cid)), found=False, case_seed=pass_seed)
     for code, (profile, cid) in sorted(known_hit.items()):
         known_lines.append("KNOWN-FINDING: property=%s %s (%s; e.g. case %d, %s build)" % (
             prop, known_by_code[code]["what"], known_by_code[code]["id"], cid, profile))
@@ -445,8 +469,7 @@ def main(argv):
     # 5. generator sanity gates (only meaningful when nothing was found)
     gate_fail = []
     if meta_all and only_case is None:
-        dist = meta_all[0].get("distribution", {})
-        gate_fail = [g for g in cfg.get("gates", []) if dist.get(g, 0) == 0]
+        gate_fail = unmet_gates()
 
     # 6. evidence
     evaluations = sum(m["evaluations"] for m in meta_all)
@@ -467,7 +490,7 @@ def main(argv):
             "rule": cfg["rule"],
             "samples": samples,
             "traces_validated_against_impl": evaluations,
-            "distribution": {m["profile"]: m["distribution"] for m in meta_all},
+            "distribution": {("%s" % m["profile"] if m.get("seed") == seed else "%s seed %s" % (m["profile"], m.get("seed"))): m["distribution"] for m in meta_all},
             "model_vs_impl_mismatches": len(mismatch_cases),
             "spec_oracle_failures": len(spec_cases),
             "known_findings_seen": [known_by_code[c]["id"] for c in sorted(known_hit)],
